@@ -91,25 +91,76 @@ func runC03(c *Ctx) {
 		if ok && ld.Op == token.MUL {
 			local, _ = ld.X.(*ssa.Alloc)
 		}
-		if local == nil {
-			c.Bad("R1.keybound", "AddCertsToAgent|added record is a copy of the constructor's", w.Pos(cv.Pos()), "the identity handed to the agent is not a local copy of the key record: "+w.Short(arg))
-			continue
+		// copyOfRecord: v is the constructor's record (a.addedKey), directly or through a local that only ever held a copy of it
+		copyOfRecord := func(v ssa.Value) bool {
+			v = throughCell(strip(v))
+			if w.Expr(v) != "p0."+fAdded {
+				return false
+			}
+			if l2, ok := v.(*ssa.UnOp); ok && l2.Op == token.MUL {
+				if a2, ok := l2.X.(*ssa.Alloc); ok {
+					return len(FieldStores(add, a2)) == 0
+				}
+			}
+			return true
 		}
-		// whole-variable stores: exactly the receiver's record
-		whole := true
-		nWhole := 0
-		if refs := local.Referrers(); refs != nil {
-			for _, r := range *refs {
-				if s, ok := r.(*ssa.Store); ok && s.Addr == ssa.Value(local) {
-					nWhole++
-					if w.Expr(s.Val) != "p0."+fAdded {
-						whole = false
+		var fs map[string][]ssa.Value
+		if local == nil {
+			// the copy made and filled by a helper that takes the record by value and returns it:
+			// identity := certIdentity(template, cert, label)
+			okHelper := false
+			if hc, isCall := arg.(*ssa.Call); isCall {
+				if h := w.helperOf(hc); h != nil && len(hc.Call.Args) == len(h.Params) {
+					rets := liveReturns(h)
+					if len(rets) == 1 && len(rets[0].Results) == 1 {
+						if rl, ok := rets[0].Results[0].(*ssa.UnOp); ok && rl.Op == token.MUL {
+							if hl, ok := rl.X.(*ssa.Alloc); ok {
+								var src *ssa.Parameter
+								n := 0
+								for _, r := range *hl.Referrers() {
+									if st, ok := r.(*ssa.Store); ok && st.Addr == ssa.Value(hl) {
+										n++
+										src, _ = st.Val.(*ssa.Parameter)
+									}
+								}
+								if n == 1 && src != nil && copyOfRecord(hc.Call.Args[paramIndex(src)]) {
+									okHelper = true
+									fs = map[string][]ssa.Value{}
+									for fld, vals := range FieldStores(h, hl) {
+										for _, v := range vals {
+											if p, isP := v.(*ssa.Parameter); isP && paramIndex(p) < len(hc.Call.Args) {
+												v = hc.Call.Args[paramIndex(p)]
+											}
+											fs[fld] = append(fs[fld], v)
+										}
+									}
+								}
+							}
+						}
 					}
 				}
 			}
+			c.Check(okHelper, "R1.keybound", "AddCertsToAgent|added record is a copy of the constructor's", w.Pos(cv.Pos()), "a by-value copy of a.addedKey filled by a helper", "the identity handed to the agent is not a local copy of the key record: "+w.Short(arg))
+			if !okHelper {
+				continue
+			}
+		} else {
+			// whole-variable stores: exactly the receiver's record
+			whole := true
+			nWhole := 0
+			if refs := local.Referrers(); refs != nil {
+				for _, r := range *refs {
+					if s, ok := r.(*ssa.Store); ok && s.Addr == ssa.Value(local) {
+						nWhole++
+						if w.Expr(s.Val) != "p0."+fAdded {
+							whole = false
+						}
+					}
+				}
+			}
+			c.Check(whole && nWhole == 1, "R1.keybound", "AddCertsToAgent|added record is a copy of the constructor's", w.Pos(cv.Pos()), "addedKey := a.addedKey", "the identity handed to the agent does not start as a copy of the record built by the constructor")
+			fs = FieldStores(add, local)
 		}
-		c.Check(whole && nWhole == 1, "R1.keybound", "AddCertsToAgent|added record is a copy of the constructor's", w.Pos(cv.Pos()), "addedKey := a.addedKey", "the identity handed to the agent does not start as a copy of the record built by the constructor")
-		fs := FieldStores(add, local)
 		for fld := range fs {
 			okF := fld == "Certificate" || fld == "Comment"
 			c.Check(okF, "R1.keybound", "AddCertsToAgent|copy changes "+fld, w.Pos(cv.Pos()), "only Certificate / Comment differ from the constructor's record", "the copy's "+fld+" is overwritten: the identity no longer carries the generated private key / its lifetime")
